@@ -562,7 +562,7 @@ def gen_any(g, depth, budget=None, kinds=None):
         env2 = env + [(["v", 0], out)] + [(["v", 1 + i], t) for i, t in enumerate(ins)]
         post = synth(g, env2, want, passthrough=0.6)
         xf = float_sources([(["v", 1 + i], t) for i, t in enumerate(ins)])
-        if want[0] == "F" and xf and rng.random() < 0.5:
+        if want[0] == "F" and xf and rng.random() < P.get("post_xformed", 0.5):
             # make sure post really reads the transformed arguments (its 2nd parameter)
             dom = want[1] if want[1] != "count" else "pos"
             post = [dom, ["add", post, xf[rng.randrange(len(xf))][0]]]
